@@ -356,6 +356,16 @@ def run(ctx) -> None:
                       f"{pds.fq}: the plain diff is re-assembled before it is printed",
                       f"`{unparse(c_)}`" + (" inside a loop" if shapes.enclosing_loops(pds, c_) else "") + ": lines are split at every Unicode line boundary (form feed, vertical tab, U+2028), "
                       "so a changed or context line containing one is printed as two lines and the output is no longer an applicable unified diff", loc=pds.loc(c_), witness={"line": "page break\x0cnext page"})
+            # click.echo removes ANSI escape sequences from its text when the stream is not a terminal (click.utils.echo /
+            # should_strip_ansi) unless told `color=True`: escape sequences that are part of a file's content would vanish
+            # from the context and changed lines of the printed diff
+            if unparse(c_.func) == "click.echo":
+                col = [k.value for k in c_.keywords if k.arg == "color"]
+                keeps = len(col) == 1 and isinstance(col[0], ast.Constant) and col[0].value is True
+                ctx.check("R4", keeps, f"{pds.qualname}: the plain diff is echoed without click's ANSI stripping (color=True)",
+                          f"{pds.fq}: escape sequences in file content are stripped from the printed diff",
+                          f"`{unparse(c_)}`: click.echo strips ANSI escape sequences when stdout is not a terminal; a pattern file that contains such sequences on a changed or context line "
+                          "is printed without them and the diff no longer applies", loc=pds.loc(c_), witness={"file line": "banner \x1b[1mv1.2.3\x1b[0m end"})
     else:
         ctx.require(False, "_print_diff_str: no branch on sys.stdout.isatty()")
 
